@@ -77,12 +77,70 @@ class CmpElementwise(object):
     __hash__ = object.__hash__
 
 
+ARG_SRC = """
+class Json:
+    class Codec:
+        @classmethod
+        def encode(cls, x):
+            return ("json", x)
+
+
+class Tsv:
+    class Codec:
+        @classmethod
+        def encode(cls, x):
+            return ("tsv", x)
+"""
+
+
+def _argmod(name, label):
+    src = ARG_SRC + ("\n\nclass Codec:\n    @classmethod\n    def encode(cls, x):\n        return (%r, x)\n\n\n"
+                     "def conv(x, y=0):\n    return (%r, x, y)\n" % (label, label))
+    m = types.ModuleType(name)
+    exec(compile(src, name + ".py", "exec"), m.__dict__)
+    sys.modules[name] = m
+    return m
+
+
+def callables():
+    """callable ARGUMENT values: bound classmethods of same-named classes (nested in two classes / in two modules),
+    same-named functions of two modules, builtin functions and methods, bound methods of module objects, partials"""
+    import math
+    a = sys.modules.get("verifargs_a") or _argmod("verifargs_a", "a")
+    b = sys.modules.get("verifargs_b") or _argmod("verifargs_b", "b")
+    return {"Json.Codec.encode": a.Json.Codec.encode, "Tsv.Codec.encode": a.Tsv.Codec.encode,
+            "a.Codec.encode": a.Codec.encode, "b.Codec.encode": b.Codec.encode,
+            "a.conv": a.conv, "b.conv": b.conv, "len": len, "abs": abs, "str.upper": str.upper, "str.lower": str.lower,
+            "[].append": [].append, "[1].append": [1].append, "math.sqrt": math.sqrt, "math.floor": math.floor,
+            "partial(a.conv,1)": functools.partial(a.conv, 1), "partial(b.conv,1)": functools.partial(b.conv, 1),
+            "partial(a.conv,y=2)": functools.partial(a.conv, y=2)}
+
+
+def describe(v):
+    """what a callable argument IS (module, qualified name, what it is bound to): two callables with one description
+    are the same computation"""
+    if isinstance(v, functools.partial):
+        return "partial(%s, %s, %s)" % (describe(v.func), canon(v.args), canon(v.keywords))
+    slf = getattr(v, "__self__", None)
+    owner = ""
+    if slf is not None:
+        owner = ("module " + slf.__name__) if isinstance(slf, types.ModuleType) else (
+            "class %s.%s" % (slf.__module__, slf.__qualname__) if isinstance(slf, type) else "instance " + canon(slf))
+    return "%s.%s of [%s]" % (getattr(v, "__module__", None), getattr(v, "__qualname__", repr(v)), owner)
+
+
+def D(v):
+    """what the generated functions return for an argument: the value itself, or the description of a callable"""
+    return ("callable", describe(v)) if callable(v) and not isinstance(v, (EqAll, EqNone, CmpRaises,
+                                                                           CmpElementwise)) else v
+
+
 ODD = {"eqall": EqAll(), "eqnone": EqNone(), "raises": CmpRaises(), "elementwise": CmpElementwise()}
 
 
 def is_literal(v):
     (t, x), = v.items()
-    if t in ("o", "np"):
+    if t in ("o", "np", "c"):
         return False
     if t in ("t", "l", "S", "F"):
         return all(is_literal(e) for e in x)
@@ -95,6 +153,8 @@ def dec(v):
     (t, x), = v.items()
     if t == "o":
         return ODD[x]
+    if t == "c":
+        return callables()[x]
     if t == "i":
         return int(x)
     if t == "f":
@@ -136,6 +196,8 @@ def canon(v):
     t = type(v).__name__
     if t in ("EqAll", "EqNone", "CmpRaises", "CmpElementwise"):
         return "odd:" + t          # never compared with ==
+    if callable(v):
+        return "callable:" + describe(v)
     if t == "ndarray":
         # dtype (fields, offsets, units), shape and element VALUES.  Byte order is normalised: joblib deliberately
         # returns cached arrays in native byte order (numpy_pickle _ensure_native_byte_order), values unchanged.
@@ -225,11 +287,11 @@ def source_for(sc, k):
         if key in ignore:
             continue
         if kind == "vk":
-            items.append("(%r, tuple(sorted(%s.items())))" % ("**", name))
+            items.append("(%r, tuple(sorted((k_, _D(v_)) for k_, v_ in %s.items())))" % ("**", name))
         elif kind == "va":
-            items.append("(%r, %s)" % ("*", name))
+            items.append("(%r, tuple(_D(v_) for v_ in %s))" % ("*", name))
         else:
-            items.append("(%r, %s)" % (name, name))
+            items.append("(%r, _D(%s))" % (name, name))
     ret = "(%r, (%s))" % (ver["tag"], "".join(it + ", " for it in items))
     sig = ", ".join(parts)
     pad = "".join("# pad %d\n" % j for j in range(ver.get("pad", 0)))
@@ -361,6 +423,7 @@ def side_main():
         path = os.path.join(job["moddir"], ver["path"])
         src = open(path).read()
         mod = types.ModuleType("verifmod")
+        mod.__dict__["_D"] = D
         mod.__dict__["_DEFAULTS"] = {n: dec(d) for n, _, d in vparams(sc, what["k"])
                                      if d is not None and not is_literal(d)}
         exec(compile(src, path, "exec"), mod.__dict__)
@@ -405,12 +468,19 @@ def main():
                 ver = sc["versions"][str(k)]
                 src = source_for(sc, k)
                 path = os.path.join(moddir, ver["path"])
-                if ver.get("kind") == "sourceless":
+                if ver.get("kind") == "ipycell":
+                    # a notebook cell: compiled under <tmp>/ipykernel_<pid of the kernel>/<hash>.py, the source is
+                    # registered in linecache (no file on disk), the function lives in __main__
+                    import linecache
+                    pids = sc.get("pids") or ["12345"]
+                    path = os.path.join(moddir, "ipykernel_%s" % pids[job.get("segment", 0) % len(pids)], "3141592653.py")
+                    linecache.cache[path] = (len(src), None, src.splitlines(True), path)
+                elif ver.get("kind") == "sourceless":
                     path = "<string>"          # exec'd text: inspect.getsource fails, get_func_code falls back
                 else:
                     with open(path, "w") as fh:
                         fh.write(src)
-                modname = "__main__" if ver.get("kind") == "main" else "verifmod"
+                modname = "__main__" if ver.get("kind") in ("main", "ipycell") else "verifmod"
 
                 defaults_ns = {n: dec(d) for n, _, d in vparams(sc, k) if d is not None and not is_literal(d)}
 
@@ -419,10 +489,11 @@ def main():
                         # the instance is hashed (pickled) as part of the key: its class must be importable
                         mod = types.ModuleType(name)
                         mod.__dict__["_DEFAULTS"] = defaults_ns
+                        mod.__dict__["_D"] = D
                         exec(compile(src, fname, "exec"), mod.__dict__)
                         sys.modules[name] = mod
                         return mod.__dict__
-                    ns_ = {"__name__": name, "_DEFAULTS": defaults_ns}
+                    ns_ = {"__name__": name, "_DEFAULTS": defaults_ns, "_D": D}
                     exec(compile(src, fname, "exec"), ns_)
                     return ns_
                 if ver.get("kind") == "partial":
@@ -525,7 +596,7 @@ def main():
                 scratch = {"__name__": objs[k].__module__}
                 exec(compile(src, path, "exec"), scratch)
                 objs[k].__code__ = scratch["g"].__code__
-                ns2 = {"__name__": "verifplain"}
+                ns2 = {"__name__": "verifplain", "_D": D}
                 exec(compile(src, path + ".plain", "exec"), ns2)
                 objs[k2], counts[k2], plains[k2] = objs[k], counts[k], ns2["g"]
                 if k in wraps:
